@@ -141,7 +141,7 @@ impl Property for C01 {
         "C01"
     }
     fn rule(&self) -> &'static str {
-        "grid: key = PDU length 0..=4100; for each: 5 label cases (6-byte, 3-byte, broadcast, 6-byte primed, 3-byte primed = re-use substitution when enabled) x 7 buffer sizes (exact-1, exact, exact+1 for the label as written, 4097, 4098, 65536, 70000) x re-use on/off x storage (== PDU, +1, 70000); random: seeded cells over all protocol types >= 0x0600, 5 content classes, random buffer/storage; longrun: 800 complete packets with one label under re-use limits 0,1,2,3,254,255; traffic: the round trip of a complete packet at the end of a seeded lock-step history (fragment trains in flight or completed in between, re-use substitutions, resets, configuration changes); ptypes (thorough): every protocol type 0x0600..=0xFFFF at three PDU sizes. Non-trivial = encap returned a completed packet that was fed to decap and compared (outcome 'delivered'); fingerprint = (pdu length, label case, buffer, re-use, storage) or (ptype,size)."
+        "grid: key = PDU length 0..=4100; for each: 5 label cases (6-byte, 3-byte, broadcast, 6-byte primed, 3-byte primed = re-use substitution when enabled) x 7 buffer sizes (exact-1, exact, exact+1 for the label as written, 4097, 4098, 65536, 70000) x re-use on/off x storage (== PDU, +1, 70000); random: seeded cells over all protocol types >= 0x0600, 5 content classes, random buffer/storage; longrun: 800 complete packets with one label under re-use limits 0,1,2,3,254,255; traffic: the round trip of a complete packet at the end of a seeded lock-step history (fragment trains in flight or completed in between, re-use substitutions, resets, configuration changes, end packets re-sent from stale contexts which the receiver refuses); ptypes (thorough): every protocol type 0x0600..=0xFFFF at three PDU sizes. Non-trivial = encap returned a completed packet that was fed to decap and compared (outcome 'delivered'); fingerprint = (pdu length, label case, buffer, re-use, storage) or (ptype,size)."
     }
     fn gens(&self, cx: &Cx) -> Vec<Gen> {
         let mut g = vec![Gen { name: "grid", count: 4101, exhaustive: true }, Gen { name: "random", count: cx.n(100_000, 6_000_000), exhaustive: false }];
@@ -284,8 +284,9 @@ impl Property for C01 {
                 let mut ops: Vec<Op> = Vec::new();
                 let mut sink = Report::new();
                 for _ in 0..n {
-                    let op = match rng.below(6) {
+                    let op = match rng.below(7) {
                         0 => Op::Cont,
+                        6 => Op::ContStale,
                         1 => Op::Enc { label: [0u8, 1, 2, 3][rng.below(4)], outcome: Outcome::Fragments, ext: false },
                         _ => random_op(&mut rng, false),
                     };
